@@ -624,7 +624,7 @@ def denote(design):
             if it["t"] == "assign":
                 lb, rb = eval_atom(it["l"], nets), eval_atom(it["r"], nets)
                 assert len(lb) == len(rb)
-                D["assigns"].append([len(lb), sorted(zip(lb, rb))])
+                D["assigns"].append([len(lb), sorted(zip(lb, rb), key=repr)])
                 for c in expr_consts(it["r"]) + expr_consts(it["l"]):
                     D["cables"][CONST_NAME[c]] = [0, 1]
                 continue
@@ -659,9 +659,19 @@ def denote(design):
 
 
 def _nets_full(m):
+    """declared nets plus the implicit ones: identifiers used in the body that are not declared (scalar)"""
     nets = _nets_of(m)
-    for n in m.get("implicit", []):
-        nets[n] = (0, 1)
+    for it in m["body"]:
+        if it["t"] == "assign":
+            atoms = [it["l"], it["r"]]
+        else:
+            atoms = []
+            for _, e in it["conns"]:
+                if e is not None:
+                    atoms.extend(e["cat"] if isinstance(e, dict) else [e])
+        for a in atoms:
+            if a[0] != "const" and a[1] not in nets:
+                nets[a[1]] = (0, 1)
     return nets
 
 
